@@ -37,13 +37,13 @@ def convStepMag (a b : UnitRow) (x : Rat) : Rat :=
   m1 + m2 + absR (b.fromBase.eval base)
 
 /-- the magnitude after one `_ConvertMatchingExp` step -/
-def stepMag (db : Db) (qt u w : Sym) (exp : Int) (vin vout m : Rat) : Rat :=
+def stepMag (db : Db) (qt u w : Sym) (exp : Int) (vin vout m : Rat) (inD : Bool) : Rat :=
   if u == w then m else
   match rowsOf db qt u w with
   | none => m
   | some (a, b) =>
     let slope := absR (a.toBase.q / a.toBase.r) * absR (b.fromBase.q / b.fromBase.r)
-    if exp == 1 then m * slope + convStepMag a b vin
+    if exp == 1 && (!inD || b.fromBase.eval (a.toBase.eval 0) == 0) then m * slope + convStepMag a b vin
     else
       let c1 := b.fromBase.eval (a.toBase.eval 1)
       let c0 := b.fromBase.eval (a.toBase.eval 0)
@@ -52,24 +52,24 @@ def stepMag (db : Db) (qt u w : Sym) (exp : Int) (vin vout m : Rat) : Rat :=
       m * absR (zpowR ratio exp) + absR vout * (absR (exp : Rat) + 1) * maxR 1 kappa
 
 /-- `matchOne` once more, carrying the magnitude -/
-def matchMag (db : Db) : List (Sym × Sym) → List Entry → Rat → Rat → Rat
+def matchMag (db : Db) (inD : Bool) : List (Sym × Sym) → List Entry → Rat → Rat → Rat
   | _, [], _, m => m
   | used, e :: es, v, m =>
     match catQType db e.cat with
     | .error _ => m
     | .ok qt =>
       match lookupU qt used with
-      | none => matchMag db ((qt, e.unit) :: used) es v m
+      | none => matchMag db inD ((qt, e.unit) :: used) es v m
       | some w =>
-        match convertMatchingExp db qt e.unit w e.exp v with
+        match convertMatchingExp db qt e.unit w e.exp v inD with
         | .error _ => m
-        | .ok v1 => matchMag db used es v1 (stepMag db qt e.unit w e.exp v v1 m)
+        | .ok v1 => matchMag db inD used es v1 (stepMag db qt e.unit w e.exp v v1 m inD)
 
 /-- magnitudes of the two matched operands -/
 def matchedMags (db : Db) (e1 e2 : List Entry) (v1 v2 m1 m2 : Rat) : Rat × Rat :=
-  match matchOne db [] e1 v1 with
+  match matchOne db (isDerivedDict e1) [] e1 v1 with
   | .error _ => (m1, m2)
-  | .ok (used, _, _) => (matchMag db [] e1 v1 m1, matchMag db used e2 v2 m2)
+  | .ok (used, _, _) => (matchMag db (isDerivedDict e1) [] e1 v1 m1, matchMag db (isDerivedDict e2) used e2 v2 m2)
 
 def matchedVals (db : Db) (e1 e2 : List Entry) (v1 v2 : Rat) : Rat × Rat :=
   match matchQuantities db e1 e2 v1 v2 with
@@ -93,7 +93,7 @@ def powMag (db : Db) (q : Quantity) (v : Rat) : Nat → Quantity → Rat → Rat
 
 /-! branch tags of the modelled functions hit by a request (reported as "br", tallied in the evidence) -/
 
-def matchTags (db : Db) (side : String) : List (Sym × Sym) → List Entry → Rat → List String × List (Sym × Sym)
+def matchTags (db : Db) (side : String) (inD : Bool) : List (Sym × Sym) → List Entry → Rat → List String × List (Sym × Sym)
   | used, [], _ => ([], used)
   | used, e :: es, v =>
     match catQType db e.cat with
@@ -101,19 +101,26 @@ def matchTags (db : Db) (side : String) : List (Sym × Sym) → List Entry → R
     | .ok qt =>
       match lookupU qt used with
       | none =>
-        let (t, u) := matchTags db side ((qt, e.unit) :: used) es v
+        let (t, u) := matchTags db side inD ((qt, e.unit) :: used) es v
         (s!"match{side}:first-unit-of-type" :: t, u)
       | some w =>
-        let tag := if e.unit == w then "same-unit" else if e.exp == 1 then "convert-exp1" else "scale-ratio-pow-exp"
-        match convertMatchingExp db qt e.unit w e.exp v with
+        let tag :=
+          if e.unit == w then "same-unit"
+          else if e.exp == 1 && !inD then "convert-exp1-simple-operand"
+          else if e.exp == 1 then
+            (match db.convert qt e.unit w 0 with
+             | .ok c0 => if c0 == 0 then "convert-exp1-derived-no-offset" else "scale-exp1-derived-offset"
+             | .error _ => "zero-conversion-error")
+          else "scale-ratio-pow-exp"
+        match convertMatchingExp db qt e.unit w e.exp v inD with
         | .error _ => ([s!"match{side}:{tag}:error"], used)
         | .ok v1 =>
-          let (t, u) := matchTags db side used es v1
+          let (t, u) := matchTags db side inD used es v1
           (s!"match{side}:{tag}" :: t, u)
 
 def bothMatchTags (db : Db) (q1 q2 : Quantity) (v1 v2 : Rat) : List String :=
-  let (t1, used) := matchTags db "1" [] q1.entries v1
-  let (t2, _) := matchTags db "2" used q2.entries v2
+  let (t1, used) := matchTags db "1" (isDerivedDict q1.entries) [] q1.entries v1
+  let (t2, _) := matchTags db "2" (isDerivedDict q2.entries) used q2.entries v2
   t1 ++ t2
 
 def shapeTag (q : Quantity) : String :=
